@@ -243,13 +243,18 @@ class Dm14Query:
         # wait for operation completed DM15 message
         raw_bytes = None
         try:
-            raw_bytes = self.data_queue.get(block=True, timeout=max_timeout)
-        except queue.Empty:
-            if self.state is QueryState.WAIT_FOR_SEED:
-                raise RuntimeError("No response from server")
-            pass
-        for _ in range(self.exception_queue.qsize()):
-            raise self.exception_queue.get(block=False, timeout=max_timeout)
+            try:
+                raw_bytes = self.data_queue.get(block=True, timeout=max_timeout)
+            except queue.Empty:
+                if self.state is QueryState.WAIT_FOR_SEED:
+                    raise RuntimeError("No response from server")
+                pass
+            for _ in range(self.exception_queue.qsize()):
+                raise self.exception_queue.get(block=False, timeout=max_timeout)
+        finally:
+            # the transaction is over: stop listening (the next one subscribes again)
+            self._ca.unsubscribe(self._parse_dm15)
+            self._ca.unsubscribe(self._parse_dm16)
         if raw_bytes:
             if self.return_raw_bytes:
                 return raw_bytes
@@ -295,6 +300,10 @@ class Dm14Query:
             if self.state is QueryState.WAIT_FOR_SEED:
                 raise RuntimeError("No response from server")
             pass  # expect empty queue for write
+        finally:
+            # the transaction is over: stop listening (the next one subscribes again)
+            self._ca.unsubscribe(self._parse_dm15)
+            self._ca.unsubscribe(self._parse_dm16)
 
     def set_seed_key_algorithm(self, algorithm: callable) -> None:
         """
